@@ -122,7 +122,51 @@ Theorem C17_source_shape :
 Proof. exact source_shape. Qed.
 Print Assumptions C17_source_shape.
 
+(* Concurrent Get/Put on one pool. Get holds the pool's mutex from the budget test to the
+   accounting and Put holds it for the subtraction (C17_get_critical_section), so a concurrent
+   execution is an interleaving of atomic steps. For every set of threads and EVERY schedule:
+   UsedBytes equals the capacities checked out by all threads together and never exceeds maxTotal. *)
+Theorem C17_concurrent_budget : forall sizes maxt threads sched,
+  let st := tfinal true sizes maxt (tinit threads) sched in
+  t_used st = total_out (t_outs st) /\ (maxt <> 0 -> t_used st <= maxt).
+Proof. exact concurrent_budget. Qed.
+Print Assumptions C17_concurrent_budget.
+
+Theorem C17_sched_pred : forall sizes maxt threads sched,
+  pred_ok (CSched sizes maxt threads sched (trun true sizes maxt (tinit threads) sched)) = true.
+Proof. exact sched_case_pred. Qed.
+Print Assumptions C17_sched_pred.
+
+(* a Get whose budget test and accounting are not one atomic step breaks the budget *)
+Theorem C17_split_get_refuted :
+  pget true [10; 20; 40; 80] 100 (mkP 0 []) 80 <> None /\
+  pget true [10; 20; 40; 80] 100 (mkP 0 []) 80 <> None /\
+  0 + charge [10; 20; 40; 80] 80 + charge [10; 20; 40; 80] 80 = 160 /\ 100 < 160 /\
+  pget true [10; 20; 40; 80] 100 (mkP 80 [80]) 80 = None.
+Proof. exact split_get_refuted. Qed.
+Print Assumptions C17_split_get_refuted.
+
+(* Tie T: the critical section of Get (Lock first, Unlock deferred, tests and accounting inline,
+   no other lock operation) and of Put's subtraction *)
+Theorem C17_get_critical_section :
+  poolGetEvents =
+    [("call", "p.mtx.Lock"); ("defer", "p.mtx.Unlock"); ("for", "range"); ("if", "sz > bktSize"); ("endif", "");
+     ("call", "uint64"); ("if", "p.maxTotal > 0 && p.usedTotal+uint64(bktSize) > p.maxTotal");
+     ("return", "nil, ErrPoolExhausted"); ("endif", ""); ("call", "p.buckets.Get"); ("if", "!ok"); ("call", "p.new");
+     ("endif", ""); ("call", "cap"); ("call", "uint64"); ("return", "b, nil"); ("endfor", ""); ("call", "uint64");
+     ("if", "p.maxTotal > 0 && p.usedTotal+uint64(sz) > p.maxTotal"); ("return", "nil, ErrPoolExhausted"); ("endif", "");
+     ("call", "uint64"); ("call", "p.new"); ("return", "p.new(sz), nil")]%string /\
+  (exists pre, poolPutEvents = pre ++ [("call", "p.mtx.Lock"); ("defer", "p.mtx.Unlock"); ("call", "uint64");
+     ("if", "uint64(sz) >= p.usedTotal"); ("else", ""); ("call", "uint64"); ("endif", "")]%string).
+Proof. exact get_critical_section. Qed.
+Print Assumptions C17_get_critical_section.
+
 (* Non-vacuity *)
+Example C17_concurrent_nonvacuous :
+  trun true [10; 20; 40; 80] 100 (tinit [[TGet 80; TPut 0%nat]; [TGet 80; TGet 20]]) [0; 1; 1; 0; 1]%nat
+    = [(true, 80, 80); (false, 0, 80); (true, 20, 100); (true, 0, 20); (true, 0, 20)].
+Proof. exact concurrent_nonvacuous. Qed.
+
 Example C17_nonvacuous :
   prun true [10; 20; 40; 80] 100 pinit [PGet 40; PGet 19; PGet 50; PPut 0; PGet 50; PPut 0; PPut 0]
     = [(true, 40, 40); (true, 20, 60); (false, 0, 60); (true, 0, 20); (true, 80, 100); (true, 0, 80); (true, 0, 0)] /\
